@@ -3,7 +3,7 @@
 # -R as first argument reverses the patch (to test against pre-fix code).
 rev=""
 if [ "$1" = "-R" ]; then rev="-R"; shift; fi
-patch="$1"; shift
+patch="$(realpath "$1")"; shift
 if ! git -C /repo diff --quiet; then echo "/repo is dirty"; exit 3; fi
 git -C /repo apply $rev "$patch" || { echo "patch does not apply"; exit 3; }
 trap 'git -C /repo checkout -- . ; git -C /repo status --short | grep -v "^??" ' EXIT
